@@ -287,10 +287,10 @@ Proof.
       * destruct (IH st1 (proj1 G)) as [G2 R2]. split; [eapply sgood_trans; eassumption|].
         assert (Hpr : probe fs p = SNotFound) by (unfold probe; rewrite R; reflexivity).
         destruct (snd (try_cands fs rq st1 cs)); cbn [tc_res select] in *; rewrite ?Hpr; exact R2.
-    + assert (HS1 : SInv (log_load st pk)) by (eapply sinv_same_core; [apply sc_log_load|exact HS]).
+    + assert (HS1 : SInv (read_manifest fs st pk)) by (eapply sinv_same_core; [apply sc_read_manifest|exact HS]).
       destruct (IH _ HS1) as [G2 R2]. split.
-      * eapply sgood_trans; [apply sgood_sc; [apply sc_log_load|exact HS]|exact G2].
-      * destruct (snd (try_cands fs rq (log_load st pk) cs)); cbn [tc_res select] in *; exact R2.
+      * eapply sgood_trans; [apply sgood_sc; [apply sc_read_manifest|exact HS]|exact G2].
+      * destruct (snd (try_cands fs rq (read_manifest fs st pk) cs)); cbn [tc_res select] in *; exact R2.
 Qed.
 
 Lemma sinv_with_native st c r : SInv st -> SInv (with_native st c r).
@@ -317,6 +317,7 @@ Lemma load_native_run_sgood st name : SInv st -> sgood st (fst (load_native_run 
 Proof.
   intro HS. unfold load_native_run.
   destruct (cache_get (native_cache st) name); [apply sgood_refl; exact HS|].
+  destruct (reuse_core nat_reg st name) as [m0|]; [cbn [fst]; apply sgood_sc; [apply sc_with_native|exact HS]|].
   pose proof (load_native_sgood st name HS) as G. destruct (load_native nat_reg st name) as [st1 r]. cbn [fst] in G.
   destruct r as [m| | | |]; try exact G.
   destruct (mem_zs (registered_name st1 m) (n_loader_throws nat_reg)); [exact G|].
@@ -328,13 +329,13 @@ Qed.
 (* a name that is not a native or core name: nothing happens *)
 Lemma lnr_none st name : snd (load_native nat_reg st name) = RNone -> load_native_run nat_reg rq st name = (st, RNone).
 Proof.
-  unfold load_native_run, load_native. destruct (cache_get (native_cache st) name); [discriminate|].
-  destruct (if mem_zs name (n_registry nat_reg) then Some NRegistry else if mem_zs name (n_global nat_reg) then Some NGlobal
-            else if mem_zs name (n_core nat_reg) then Some NCore else None) as [k|].
-  - destruct (new_module st (ONative name k)) as [st1 m]. cbn [snd]. discriminate.
-  - destruct (has_prefix node_prefix name); [|reflexivity].
-    destruct (mem_zs (skipn (length node_prefix) name) (n_core nat_reg)); [|discriminate].
-    destruct (new_module st (ONative (skipn (length node_prefix) name) NCore)) as [st1 m]. cbn [snd]. discriminate.
+  unfold load_native_run, load_native, reuse_core. destruct (cache_get (native_cache st) name); [discriminate|].
+  destruct (mem_zs name (n_registry nat_reg)); [destruct (new_module st (ONative name NRegistry)) as [st1 m]; cbn [snd]; discriminate|].
+  destruct (mem_zs name (n_global nat_reg)); [destruct (new_module st (ONative name NGlobal)) as [st1 m]; cbn [snd]; discriminate|].
+  destruct (mem_zs name (n_core nat_reg)); [destruct (new_module st (ONative name NCore)) as [st1 m]; cbn [snd]; discriminate|].
+  cbn [orb]. destruct (has_prefix node_prefix name); [|reflexivity].
+  destruct (mem_zs (skipn (length node_prefix) name) (n_core nat_reg)); [|discriminate].
+  destruct (new_module st (ONative (skipn (length node_prefix) name) NCore)) as [st1 m]. cbn [snd]. discriminate.
 Qed.
 
 Lemma sinv_alias_resolved st k m f : SInv st -> file_owner st m = Some f -> cache_get (files_cache st) f = Some m ->
